@@ -34,11 +34,23 @@ def floors(tier):
             "events": {"LinearScale.ticks": 8000, "LinearScale.tickFormat": 8000}, "distinct_nontrivial": 5000}
 
 
-def run_case(ctx, S, a, b, m, tag):
-    case = {"domain": [a, b], "m": m}
+_REUSE = {"scale": None}
+
+
+def run_case(ctx, S, a, b, m, tag, reuse=None):
+    case = {"domain": [a, b], "m": m, "reuse": reuse}
     meff = 10 if m is None else m
     try:
-        s = S.LinearScale().domain([a, b])
+        prev = _REUSE["scale"]
+        if reuse == "same-object" and prev is not None:
+            s = prev.domain([a, b])  # a scale that already produced ticks / formats for another domain
+            ctx.path("reused-scale-object")
+        elif reuse == "copy" and prev is not None:
+            s = prev.copy().domain([a, b])
+            ctx.path("copied-scale-object")
+        else:
+            s = S.LinearScale().domain([a, b])
+        _REUSE["scale"] = s
         ticks = list(s.ticks(m)) if m is not None else list(s.ticks())
         fmt = s.tickFormat(m) if m is not None else s.tickFormat()
         texts = [fmt(t) for t in ticks]
@@ -47,7 +59,8 @@ def run_case(ctx, S, a, b, m, tag):
         return
     probs = T.judge_linear_ticks(a, b, meff, ticks, texts)
     if probs:
-        ctx.judge(tag, VIOLATED, case, finding={"problems": probs[:4], "ticks": ticks[:8], "n": len(ticks), "texts": texts[:8]}, key=probs[0].split(" ")[0])
+        ctx.judge(tag, VIOLATED, case, finding={"problems": probs[:4], "ticks": ticks[:8], "n": len(ticks), "texts": texts[:8]}, key=("count" if probs[0].startswith("count") else "outside-domain" if "outside the domain" in probs[0] else "step" if "power of ten" in probs[0] or "multiple of the step" in probs[0]
+                       else "spacing" if "uneven" in probs[0] or "increasing" in probs[0] else "missing-multiple" if "missing" in probs[0] else "texts"))
         return
     nontriv = False
     if len(ticks) >= 3:
@@ -76,7 +89,7 @@ def worker(ctx, shard):
     rng = ctx.rng("ticks%d" % shard["sub"])
     for _ in range(shard["n"]):
         a, b, m, tag = lin.gen_domain(rng)
-        run_case(ctx, S, a, b, m, tag)
+        run_case(ctx, S, a, b, m, tag, reuse=rng.choice([None, None, None, "same-object", "copy"]))
     for k, v in cnt.items():
         ctx.event(k, v)
     p.uninstall()
